@@ -316,4 +316,96 @@ theorem foldDaysPure_closed (c : Cfg) (p : Plan) (t : Nat) (vs : List Int) :
     simp only [Acc.mk.injEq, Errs.mk.injEq]
     refine ⟨trivial, ⟨?_, ?_, ?_, ?_, ?_, ?_, trivial, trivial⟩, trivial, trivial⟩ <;> omega
 
+/-! ### closed form of the loop over the teams -/
+
+def allEvents (p : Plan) (k : Nat) : List (Nat × Nat) :=
+  (List.range k).flatMap (fun t => colEvents t 0 (col p t))
+
+def teamsT2 (p : Plan) (k : Nat) (M0 : List (List Int)) : List (List Int) :=
+  (List.range k).foldl (fun m t => colT2 m t (col p t)) M0
+
+def rsum (k : Nat) (f : Nat → Int) : Int := ((List.range k).map f).sum
+
+theorem rsum_succ (k : Nat) (f : Nat → Int) : rsum (k + 1) f = rsum k f + f k := by
+  simp [rsum, List.range_succ, List.sum_append]
+
+theorem rsum_zero (f : Nat → Int) : rsum 0 f = 0 := by simp [rsum]
+
+def teamsClosed (c : Cfg) (p : Plan) (k : Nat) (T0 : List Int) (M0 : List (List Int)) : G :=
+  { e := { bye := rsum k (fun t => count0 (col p t)),
+           incons := rsum k (fun t => colIncons p t 0 (col p t)),
+           streakMax := rsum k (fun t => (colStreak c Streak.init (col p t)).2.1),
+           streakMin := rsum k (fun t => (colStreak c Streak.init (col p t)).2.2
+                                         + closeStreak c (colStreak c Streak.init (col p t)).1),
+           sepMin := (tableFold c T0 (allEvents p k)).2.1,
+           sepMax := (tableFold c T0 (allEvents p k)).2.2,
+           pairCount := 0, balance := 0 },
+    t1 := (tableFold c T0 (allEvents p k)).1,
+    t2 := teamsT2 p k M0 }
+
+theorem teamStep_eq (c : Cfg) {n : Nat} {p : Plan} (hs : Shape n p) {t : Nat} (ht : t < n) (g : G)
+    (h1 : g.t1.length = tri n) (h2 : T2Shape n g.t2) :
+    teamStep c p g t =
+      some { e := { (colClosed c p t ⟨Streak.init, g.e, g.t1, g.t2⟩ 0 (col p t)).e with
+                    streakMin := (colClosed c p t ⟨Streak.init, g.e, g.t1, g.t2⟩ 0 (col p t)).e.streakMin
+                      + closeStreak c (colClosed c p t ⟨Streak.init, g.e, g.t1, g.t2⟩ 0 (col p t)).s },
+             t1 := (colClosed c p t ⟨Streak.init, g.e, g.t1, g.t2⟩ 0 (col p t)).t1,
+             t2 := (colClosed c p t ⟨Streak.init, g.e, g.t1, g.t2⟩ 0 (col p t)).t2 } := by
+  unfold teamStep
+  have hfd := foldDays_eq c hs ht (col p t) 0 ⟨Streak.init, g.e, g.t1, g.t2⟩
+    (by simp [col_length]) (col_mem_range hs t) h1 h2
+  simp only [column?_eq hs ht, hfd, foldDaysPure_closed]
+
+theorem colT2_shape {n : Nat} {t : Nat} (ht : t < n) (vs : List Int) :
+    ∀ (m : List (List Int)), T2Shape n m → T2Shape n (colT2 m t vs) := by
+  induction vs with
+  | nil => intro m h; exact h
+  | cons v vs ih =>
+    intro m h
+    simp only [colT2]
+    apply ih
+    unfold dayT2
+    split
+    · exact bump2_shape h ht _
+    · exact h
+
+theorem foldTeams_append (c : Cfg) (p : Plan) (l1 l2 : List Nat) (g : G) :
+    foldTeams c p g (l1 ++ l2) = (foldTeams c p g l1).bind (fun g' => foldTeams c p g' l2) := by
+  induction l1 generalizing g with
+  | nil => simp [foldTeams]
+  | cons t ts ih =>
+    simp only [List.cons_append, foldTeams]
+    cases teamStep c p g t with
+    | none => simp
+    | some g' => simp [ih]
+
+theorem teamsClosed_inv (c : Cfg) {n : Nat} (p : Plan) (T0 : List Int) (M0 : List (List Int))
+    (h1 : T0.length = tri n) (h2 : T2Shape n M0) (k : Nat) (hk : k ≤ n) :
+    (teamsClosed c p k T0 M0).t1.length = tri n ∧ T2Shape n (teamsClosed c p k T0 M0).t2 := by
+  refine ⟨by simp [teamsClosed, tableFold_length, h1], ?_⟩
+  simp only [teamsClosed, teamsT2]
+  induction k with
+  | zero => simpa using h2
+  | succ k ih =>
+    rw [List.range_succ, List.foldl_append]
+    simp only [List.foldl_cons, List.foldl_nil]
+    exact colT2_shape (show k < n by omega) _ _ (ih (by omega))
+
+theorem foldTeams_eq (c : Cfg) {n : Nat} {p : Plan} (hs : Shape n p) (T0 : List Int)
+    (M0 : List (List Int)) (h1 : T0.length = tri n) (h2 : T2Shape n M0) (k : Nat) (hk : k ≤ n) :
+    foldTeams c p { e := {}, t1 := T0, t2 := M0 } (List.range k) = some (teamsClosed c p k T0 M0) := by
+  induction k with
+  | zero =>
+    simp [foldTeams, teamsClosed, rsum_zero, allEvents, tableFold, teamsT2]
+  | succ k ih =>
+    have hinv := teamsClosed_inv c p T0 M0 h1 h2 k (by omega)
+    rw [List.range_succ, foldTeams_append, ih (by omega)]
+    simp only [Option.bind_some, foldTeams,
+      teamStep_eq c hs (show k < n by omega) _ hinv.1 hinv.2]
+    simp only [teamsClosed, colClosed, rsum_succ, allEvents, List.range_succ, List.flatMap_append,
+      List.flatMap_cons, List.flatMap_nil, List.append_nil, tableFold_append, teamsT2,
+      List.foldl_append, List.foldl_cons, List.foldl_nil]
+    simp only [Option.some.injEq, G.mk.injEq, Errs.mk.injEq]
+    refine ⟨⟨?_, ?_, ?_, ?_, ?_, ?_, ?_, ?_⟩, ?_, ?_⟩ <;> first | rfl | omega | trivial
+
 end TtpErrors
